@@ -79,9 +79,19 @@ type recCache struct {
 	mu      sync.Mutex
 	lastGet []byte
 	hit     bool
+	evicted bool // answer every Get as a miss: the state of a bounded cache after enough other insertions or after expiry
 }
 
 func (c *recCache) Get(ctx context.Context, key []byte) ([]byte, error) {
+	c.mu.Lock()
+	ev := c.evicted
+	c.mu.Unlock()
+	if ev {
+		c.mu.Lock()
+		c.lastGet, c.hit = nil, false
+		c.mu.Unlock()
+		return nil, nil
+	}
 	v, err := c.inner.Get(ctx, key)
 	c.mu.Lock()
 	c.lastGet, c.hit = v, v != nil && err == nil
@@ -172,6 +182,7 @@ func main() {
 		store *memStore
 		cache *recCache
 		want  [][]byte // per leaf index of this instance's log: what the default mode serves for that submission
+		blob  [][]byte // per leaf index: the chain blob its hash stands for (nil for legacy full-chain entries)
 	}
 	var indirect []*ienv
 	for _, ck := range cacheKinds {
@@ -185,12 +196,15 @@ func main() {
 		indirect = append(indirect, &ienv{name: ck.name, env: env, log: lg, store: st, cache: rc})
 	}
 
+	lastErrBody := ""
 	serve := func(env *ctfeenv.Env, idx int, viaProof bool) (int, []byte) {
 		if viaProof {
 			rec := env.Get(ct.GetEntryAndProofPath, fmt.Sprintf("leaf_index=%d&tree_size=%d", idx, idx+1))
 			var rsp ct.GetEntryAndProofResponse
 			if rec.Code == 200 {
 				json.Unmarshal(rec.Body.Bytes(), &rsp)
+			} else {
+				lastErrBody = rec.Body.String()
 			}
 			return rec.Code, rsp.ExtraData
 		}
@@ -202,6 +216,7 @@ func main() {
 				return rec.Code, rsp.Entries[0].ExtraData
 			}
 		}
+		lastErrBody = rec.Body.String()
 		return rec.Code, nil
 	}
 
@@ -261,6 +276,7 @@ func main() {
 		// --- external-storage mode, every cache kind ---
 		for _, ie := range indirect {
 			fault := "none"
+			retried := false
 			switch r.Intn(14) {
 			case 0:
 				fault = "add-fails"
@@ -289,7 +305,17 @@ func main() {
 					PropOK: ok, Note: "storage Add failed but add-chain answered 200", Tags: []string{"fault:add-fails:" + fmt.Sprint(rec.Code)},
 				})
 				if rec.Code != 200 {
-					continue
+					// what a submitter does next: the same chain again, the storage now healthy. The entry
+					// this yields must stay readable in every later cache state.
+					if r.Intn(4) == 0 {
+						continue
+					}
+					fault = "none"
+					time.Sleep(50 * time.Microsecond)
+					_, already = ie.store.m[string(h[:])]
+					cachedBefore, _ = ie.cache.inner.Get(context.Background(), h[:])
+					rec = ie.env.AddChain(precert, submit)
+					retried = true
 				}
 			}
 			if rec.Code != 200 {
@@ -297,12 +323,13 @@ func main() {
 			}
 			idx := len(ie.log.leaves) - 1
 			ie.want = append(ie.want, dServed)
+			ie.blob = append(ie.blob, blob)
 			stored := ie.log.leaves[idx].ExtraData
 			w.Add(lib.Case{
 				Coq:    fmt.Sprintf("CHashed %s %s %s %s", lib.Bool(precert), lib.Bytes(leaf.DER), lib.Bytes(h[:]), lib.Bytes(stored)),
 				Input:  map[string]interface{}{"op": "queue-hashed", "precert": precert, "cache": ie.name, "chain_len": len(rest), "dedup": already},
 				Impl:   map[string]interface{}{"extra_len": len(stored)},
-				PropOK: bytes.Equal(ie.store.m[string(h[:])], blob) || cachedBefore != nil, Note: "storage does not hold the chain blob under its SHA-256", Tags: []string{"hashed:" + ie.name},
+				PropOK: bytes.Equal(ie.store.m[string(h[:])], blob), Note: fmt.Sprintf("entry sequenced with a chain hash the storage does not hold (cache %s, cached before %v, retried after a storage failure %v)", ie.name, cachedBefore != nil, retried), Tags: []string{"hashed:" + ie.name, fmt.Sprintf("retried:%v", retried)},
 			})
 			if !already {
 				w.Add(lib.Case{
@@ -336,10 +363,14 @@ func main() {
 			time.Sleep(50 * time.Microsecond) // let the detached cache fill happen or not
 			viaProof := r.Intn(2) == 0
 			ie.store.lastFind = nil
+			evicted := r.Intn(3) == 0
 			ie.cache.mu.Lock()
-			ie.cache.hit, ie.cache.lastGet = false, nil
+			ie.cache.hit, ie.cache.lastGet, ie.cache.evicted = false, nil, evicted
 			ie.cache.mu.Unlock()
 			code, served := serve(ie.env, readIdx, viaProof)
+			ie.cache.mu.Lock()
+			ie.cache.evicted = false
+			ie.cache.mu.Unlock()
 			ie.store.failFind = false
 			if fault == "blob-corrupted" || fault == "blob-deleted" {
 				ie.store.m[string(h[:])] = saved
@@ -351,6 +382,11 @@ func main() {
 				got = "(Some (IoOk " + lib.Bytes(ie.cache.lastGet) + "))"
 			}
 			ie.cache.mu.Unlock()
+			if got != "None" && fault == "none" && ie.blob[readIdx] != nil && !bytes.Equal(ie.cache.lastGet, ie.blob[readIdx]) {
+				// an earlier read met the corrupted stored chain and getByHash cached what storage returned:
+				// the cache now answers with the corrupted chain although storage has been repaired
+				fault = "cache-holds-corrupted-blob"
+			}
 			if got == "None" && ie.store.lastFind != nil {
 				if ie.store.lastFind.err {
 					got = "(Some IoErr)"
@@ -358,9 +394,11 @@ func main() {
 					got = "(Some (IoOk " + lib.Bytes(ie.store.lastFind.val) + "))"
 				}
 			}
-			obs := "ErrStruct"
+			obs, errBody := "ErrStruct", ""
 			if code == 200 {
 				obs = "Ok " + lib.Bytes(served)
+			} else {
+				errBody = lastErrBody
 			}
 			// direct oracle: byte-identical to what the default mode serves for the same submission,
 			// or an error response - never altered / truncated / empty chain data
@@ -370,16 +408,16 @@ func main() {
 				propOK, note = false, fmt.Sprintf("served extra_data differs from the default mode's (cache %s, fault %s)", ie.name, fault)
 			}
 			if code != 200 && fault == "none" {
-				propOK, note = false, fmt.Sprintf("external-storage mode answered %d without any fault (cache %s)", code, ie.name)
+				propOK, note = false, fmt.Sprintf("external-storage mode answered %d without any fault at read time (cache %s, evicted %v, retried after a storage failure %v)", code, ie.name, evicted, retried)
 			}
 			if code >= 400 && code < 500 {
 				propOK, note = false, "storage fault answered 4xx"
 			}
 			w.Add(lib.Case{
 				Coq:    fmt.Sprintf("CServe %s %s (%s)", lib.Bytes(ie.log.leaves[readIdx].ExtraData), got, obs),
-				Input:  map[string]interface{}{"op": "serve", "cache": ie.name, "fault": fault, "via_entry_and_proof": viaProof, "older_entry": readIdx != idx},
-				Impl:   map[string]interface{}{"status": code, "extra_len": len(served), "cache_hit": got != "None" && ie.cache.hit},
-				PropOK: propOK, Note: note, Tags: []string{"serve:" + ie.name + ":" + fault + fmt.Sprintf(":%d", code)},
+				Input:  map[string]interface{}{"op": "serve", "cache": ie.name, "fault": fault, "via_entry_and_proof": viaProof, "older_entry": readIdx != idx, "evicted": evicted, "retried": retried},
+				Impl:   map[string]interface{}{"status": code, "extra_len": len(served), "cache_hit": got != "None" && ie.cache.hit, "error_body": errBody},
+				PropOK: propOK, Note: note, Tags: []string{"serve:" + ie.name + ":" + fault + fmt.Sprintf(":%d", code), fmt.Sprintf("evicted:%v", evicted), fmt.Sprintf("retried:%v", retried)},
 			})
 		}
 		// legacy: an external-storage instance serving an entry that was stored with its full chain
@@ -389,6 +427,7 @@ func main() {
 			ie.log.leaves = append(ie.log.leaves, &trillian.LogLeaf{LeafValue: directLog.leaves[dIdx].LeafValue, ExtraData: dExtra, LeafIndex: int64(len(ie.log.leaves))})
 			li := len(ie.log.leaves) - 1
 			ie.want = append(ie.want, dExtra)
+			ie.blob = append(ie.blob, nil)
 			ie.log.mu.Unlock()
 			code, served := serve(ie.env, li, r.Intn(2) == 0)
 			obs := "ErrStruct"
